@@ -189,7 +189,7 @@ fn note_source(st: &mut Stats, src: &SimSource, case: &ParseCase) -> (u64, u64) 
         st.hit("fault.prefilled_bufreader");
     }
     if s.budget_exceeded {
-        st.hit("note.source_budget_exceeded");
+        st.hit("note.source_call_budget_exceeded_no_verdict");
     }
     // does a delivery boundary fall strictly inside a token?
     if !case.spans.is_empty() && case.class == 0 {
@@ -475,6 +475,9 @@ impl Prop for C01 {
         } else if matches!(reference.outcome, Outcome::Panic(_)) {
             st.hit("note.identical_panic_on_both_sides");
         }
+        if src.state().budget_exceeded {
+            violation = None;
+        }
         let mut t = Fnv::default();
         t.u64(trace);
         for i in &got.items {
@@ -666,6 +669,9 @@ impl Prop for C04 {
                         free.items.len()
                     ),
                 });
+            }
+            if s.budget_exceeded {
+                violation = None;
             }
             if violation.is_some() {
                 break;
